@@ -7,7 +7,7 @@ CHECKS = {
 
  'C15': dict(
    technique='runtime round-trip monitor + sanitizer fuzzing: Data::toJSON/fromJSON and Event::operator Data/fromData called directly in the ASan/UBSan build on generated trees, events and mutated byte strings; results compared by Data::operator== and an independent structural walk; crashes classified by a transcription of the parser that names the first undefined step',
-   text='Exploration: seeded random Data trees (strings/keys over all byte values but NUL, numbers, nested arrays/maps, empty nodes, top-level atoms) must satisfy fromJSON(toJSON(d)) == d; random events must survive Event::fromData(Data(e)) field by field; mutated/random byte strings must make fromJSON return or throw without sanitizer report, signal or hang.',
+   text='Exploration: seeded random Data trees (strings/keys over all byte values but NUL, numbers, nested arrays/maps, empty nodes, top-level atoms) must satisfy fromJSON(toJSON(d)) == d; random events must survive Event::fromData(Data(e)) field by field; mutated/random byte strings must make fromJSON return or throw without sanitizer report, signal or hang. A LeakSanitizer pass parses several hundred (mostly malformed) inputs in one process: nothing allocated by fromJSON may stay behind.',
    note='Trusted: vf/dtree.py comparison, harness/vdata.h wire format; vf/json_ref.py only names crash classes. Data::operator== consulted up to depth 12 (it is exponential in depth). No uninitialised-read detection.',
    ref='DESIGN.md 3/C15'),
  'C16': dict(
@@ -23,17 +23,17 @@ CHECKS = {
 
  'C07': dict(level='fault_enumeration',
    technique='fault injection + history/reference monitor: one failing element (or condition) injected at every position of every executable block of generated documents, runs on the ASan/UBSan build compared step by step with the reference in which the element enqueues its error and aborts its block; plus seeded XML mutants judged for crashes/hangs only',
-   text='Fault enumeration: for each generated document every (block, position) gets a failing element from the per-datamodel fault list (send to unknown type/target, illegal expression/location, system variable, foreach over non-array, cancel without id, /0, %0, ...), 30% nested in an <if>; the error event must be processed in queue order, nothing after the element in its block may run, following blocks must run, the interpreter keeps stepping; no signal, sanitizer report or hang. Mutated well-formed XML goes through fromXML+validate+stepping.',
+   text='Fault enumeration: for each generated document every (block, position) gets a failing element from the per-datamodel fault list (send to unknown type/target, illegal expression/location, system variable, foreach over non-array, cancel without id, /0, %0, ...), 30% nested in an <if>; the error event must be processed in queue order, nothing after the element in its block may run, following blocks must run, the interpreter keeps stepping; no signal, sanitizer report or hang. Mutated well-formed XML goes through fromXML+validate+stepping. A third workload runs a corpus of constructs that fail outside the micro stepper (content/param expressions, non-string Lua error objects and table keys, INT_MIN/-1, short array initialisers, <finalize>, invoke params) in every block kind on both engines: no crash, no exception out of step(), no hang.',
    note='Trusted: vf/refscxml.py with fail actions; expected error names in vf/checks/c07.py. Memory safety as far as ASan/UBSan see it.',
    ref='DESIGN.md 3/C07'),
  'C08': dict(
    technique='history checker over recorded multi-threaded executions + ThreadSanitizer/AddressSanitizer: N producer threads call receive() against one stepping thread, seeded yields at USCXML_VERIF schedule points; offline exactly-once / per-producer FIFO / macrostep-rule checker; TSan reports attributed by anchored files',
-   text='Exploration of schedules by stress and injected yields: every sent event must be processed exactly once, per producer in order, and each external event must be followed by exactly the prescribed internal sequence and one stable notice; data races in the queue/interpreter code are violations. Evidence counts distinct interleaving signatures.',
+   text='Exploration of schedules by stress and injected yields: every sent event must be processed exactly once, per producer in order, and each external event must be followed by exactly the prescribed internal sequence and one stable notice; data races in the queue/interpreter code are violations. Evidence counts distinct interleaving signatures. One run in four uses a stepper that sleeps in step(3000) with paced producers dwelling at the enqueue entry: every enqueue must wake it (lost wake-ups); one in five starts the producers before the first step().',
    note='Interleavings are sampled, not enumerated. TSan only sees synchronisation it intercepts; reports without a frame in the anchored files are listed, not judged.',
    ref='DESIGN.md 3/C08'),
  'C09': dict(
    technique='timestamped history checker + forced-window schedules + sanitizers: delayed sends/cancels recorded with a monotonic clock (plain, TSan, ASan builds); scripts park the timer thread at schedule points between fire and deliver while <cancel>/destruction runs; hangs reported with gdb stack samples',
-   text='Exploration: timing charts with 4-14 delayed sends and cancels (not-early and exactly-once hard, order/cancel rules with 50 ms margin) and four forced race scripts; outcome of a racing cancel must be 0 or 1 delivery without deadlock, crash, double delivery or sanitizer report.',
+   text='Exploration: timing charts with 4-14 delayed sends and cancels (not-early and exactly-once hard, order/cancel rules with 50 ms margin) and four forced race scripts; outcome of a racing cancel must be 0 or 1 delivery without deadlock, crash, double delivery or sanitizer report. Charts also send to #_internal (must wake a sleeping stepper and keep due order), to targets that do not exist (error.communication, no abort on the timer thread) and execute one send id several times before cancelling it.',
    note='Real time is involved: only lower bounds and generous margins are judged. A script whose window is never reached makes the run inconclusive.',
    ref='DESIGN.md 3/C09'),
  'C10': dict(
@@ -54,7 +54,7 @@ CHECKS = {
 
  'C14': dict(
    technique='history + differential runtime monitor: snapshot (serialize) at every stable point of generated runs, resume (deserialize) in a fresh interpreter, both driven with the same continuation and every callback/log/configuration/data record compared; negative oracle with a foreign document; ASan/UBSan build',
-   text='Exploration: documents x histories x every stable point (with 0-2 external events still queued, and with delayed sends pending) x both engines; the resumed trace must equal the original from the first processed event on; a state string of a document differing by one comment must be rejected.',
+   text='Exploration: documents x histories x every stable point (with 0-2 external events still queued, and with delayed sends pending) x both engines; the resumed trace must equal the original from the first processed event on; a state string of a document differing by one comment must be rejected. Delayed sends pending at the snapshot (also cancelled by id or addressed to #_internal afterwards) must be delivered by the resumed session.',
    note='Trusted: recording driver vdrv. Resume prologue (step results before the first event) not compared. Invokers are not snapshotted in this check.',
    ref='DESIGN.md 3/C14'),
 
